@@ -81,7 +81,7 @@ def main():
         "engines": [{"name": "simworld", "path": "/verif/sim", "serves_properties": [c["property_id"] for c in checks], "kind_free_text": "deterministic simulation with fault injection: own seeded scheduler, fork-per-run isolation, seams for clock/entropy/files/listing/interrupts, reference models, ddmin minimiser, JSON replay"}],
         "checks": checks,
         "not_applicable": na,
-        "notes": "Exit 0 held / 1 VIOLATION line / 2 harness trouble. VERIF_SEED, VERIF_TIER, VERIF_BUDGET_S honoured. See DESIGN.md.",
+        "notes": "Exit 0 held / 1 VIOLATION line / 2 harness trouble. VERIF_SEED and VERIF_TIER honoured. Quick tier = a fixed quota of seeded scenarios per property (sim/driver.py:QUICK_RUNS; same seed, same tree => same work and same evidence on any machine; 300 s ceiling as safety net), thorough tier = time budget (VERIF_BUDGET_S, default 900 s). See DESIGN.md, in particular 11.8.",
     }
     json.dump(man, open(os.path.join(HERE, "MANIFEST.json"), "w"), indent=1)
     print("checks:", [c["property_id"] for c in checks])
